@@ -41,7 +41,7 @@ import (
 type ToolDef struct {
 	Name string `json:"name"`
 	Kind string `json:"kind"` // inv | str | both | none (a BaseTool that implements neither run interface)
-	Via  string `json:"via"`  // infer | new | raw | inferopt   (raw and inferopt tools look at their tool options)
+	Via  string `json:"via"`  // infer | new | raw | inferopt | raw2 | inferopt2 (raw/inferopt tools read the tag options, raw2/inferopt2 tools the options of the other implementation-specific type, infer/new tools none)
 	// its Info call fails
 	InfoErr bool `json:"info_err,omitempty"`
 }
@@ -58,7 +58,16 @@ func anyBad(l []ToolDef) bool {
 	return false
 }
 
-func (d ToolDef) sees() bool { return d.Via == "raw" || d.Via == "inferopt" }
+// the implementation-specific option type the tool reads: 0 = none, 1 = tagOpt, 2 = altOpt
+func (d ToolDef) optType() int {
+	switch d.Via {
+	case "raw", "inferopt":
+		return 1
+	case "raw2", "inferopt2":
+		return 2
+	}
+	return 0
+}
 
 type Behav struct {
 	Chunks     []string `json:"chunks"`            // output = name + ":" + join(chunks); streamed as these chunks (first one prefixed)
@@ -87,22 +96,74 @@ type Case struct {
 	// call options
 	CallTools *[]ToolDef `json:"call_tools,omitempty"` // WithToolList (nil = option absent; an empty list is passed as an empty non-nil slice)
 	ToolOpts  [][]string `json:"tool_opts,omitempty"`  // one WithToolOption per inner list; every entry is a tag option
+	// the call's options as a sequence, in the order given (replaces the two fields above when present)
+	OptSeq []NodeOpt `json:"opt_seq,omitempty"`
+	// graph-hosted runs: how the node options travel as graph call options: "" = one
+	// WithToolsNodeOption carrying all, "split" = one per node option, "designated" = one per node
+	// option, each designated to the tools node, "mixed" = alternately designated or not
+	GraphOpts string `json:"graph_opts,omitempty"`
+}
+
+// one ToolsNodeOption
+type NodeOpt struct {
+	List  *[]ToolDef `json:"list,omitempty"`   // WithToolList(list...) (an empty list is passed as an empty non-nil slice)
+	NoArg bool       `json:"no_arg,omitempty"` // WithToolList() without argument: a nil slice
+	Tags  []string   `json:"tags,omitempty"`   // otherwise WithToolOption(tags...): a tag starting with "~" is an option of the other implementation-specific type (altOpt), any other a tagOpt
+}
+
+func (o NodeOpt) isList() bool { return o.List != nil || o.NoArg }
+
+func (c *Case) optSeq() []NodeOpt {
+	if c.OptSeq != nil {
+		return c.OptSeq
+	}
+	var out []NodeOpt
+	if c.CallTools != nil {
+		out = append(out, NodeOpt{List: c.CallTools})
+	}
+	for _, l := range c.ToolOpts {
+		out = append(out, NodeOpt{Tags: l})
+	}
+	return out
+}
+
+// the tool list the call brings (nil: none, the configured tools answer): the last WithToolList decides
+func (c *Case) callList() *[]ToolDef {
+	var l *[]ToolDef
+	for _, o := range c.optSeq() {
+		if o.isList() {
+			l = o.List // nil for WithToolList()
+		}
+	}
+	return l
 }
 
 // the tool list in force for the call
 func (c *Case) effTools() []ToolDef {
-	if c.CallTools != nil {
-		return *c.CallTools
+	if l := c.callList(); l != nil {
+		return *l
 	}
 	return c.Tools
 }
 
-// what a tool that looks at its options sees
-func (c *Case) tag() string {
+func splitTag(t string) (int, string) {
+	if strings.HasPrefix(t, "~") {
+		return 2, t[1:]
+	}
+	return 1, t
+}
+
+// what a tool that reads the options of type ot sees
+func (c *Case) tag(ot int) string {
 	var b strings.Builder
-	for _, l := range c.ToolOpts {
-		for _, t := range l {
-			b.WriteString(t)
+	for _, o := range c.optSeq() {
+		if o.isList() {
+			continue
+		}
+		for _, t := range o.Tags {
+			if ty, payload := splitTag(t); ty == ot {
+				b.WriteString(payload)
+			}
 		}
 	}
 	return b.String()
@@ -110,35 +171,70 @@ func (c *Case) tag() string {
 
 type tagOpt struct{ tag string }
 
+type altOpt struct{ tag string }
+
 func withTag(s string) tool.Option {
+	if ty, payload := splitTag(s); ty == 2 {
+		return tool.WrapImplSpecificOptFn(func(o *altOpt) { o.tag += payload })
+	}
 	return tool.WrapImplSpecificOptFn(func(o *tagOpt) { o.tag += s })
 }
 
-func tagOf(opts []tool.Option) string {
-	return tool.GetImplSpecificOptions(&tagOpt{}, opts...).tag
+// what an implementation whose option type is ot reads from the options it is handed
+func tagOf(ot int, opts []tool.Option) string {
+	switch ot {
+	case 1:
+		return tool.GetImplSpecificOptions(&tagOpt{}, opts...).tag
+	case 2:
+		return tool.GetImplSpecificOptions(&altOpt{}, opts...).tag
+	}
+	return ""
 }
 
 func (c *Case) nodeOptions(rc *recorder) ([]compose.ToolsNodeOption, error) {
 	var out []compose.ToolsNodeOption
-	if c.CallTools != nil {
-		tools := []tool.BaseTool{}
-		for _, d := range *c.CallTools {
-			t, err := buildTool(rc, d)
-			if err != nil {
-				return nil, err
+	for _, o := range c.optSeq() {
+		switch {
+		case o.List != nil:
+			tools := []tool.BaseTool{}
+			for _, d := range *o.List {
+				t, err := buildTool(rc, d)
+				if err != nil {
+					return nil, err
+				}
+				tools = append(tools, t)
 			}
-			tools = append(tools, t)
+			out = append(out, compose.WithToolList(tools...))
+		case o.NoArg:
+			out = append(out, compose.WithToolList())
+		default:
+			var os []tool.Option
+			for _, t := range o.Tags {
+				os = append(os, withTag(t))
+			}
+			out = append(out, compose.WithToolOption(os...))
 		}
-		out = append(out, compose.WithToolList(tools...))
-	}
-	for _, l := range c.ToolOpts {
-		var os []tool.Option
-		for _, t := range l {
-			os = append(os, withTag(t))
-		}
-		out = append(out, compose.WithToolOption(os...))
 	}
 	return out, nil
+}
+
+// the node options as call options of a graph that hosts the node under the key "tools"
+func (c *Case) graphOptions(nopts []compose.ToolsNodeOption) []compose.Option {
+	if len(nopts) == 0 {
+		return nil
+	}
+	if c.GraphOpts == "" {
+		return []compose.Option{compose.WithToolsNodeOption(nopts...)}
+	}
+	var out []compose.Option
+	for i, o := range nopts {
+		g := compose.WithToolsNodeOption(o)
+		if c.GraphOpts == "designated" || (c.GraphOpts == "mixed" && i%2 == 0) {
+			g = g.DesignateNode("tools")
+		}
+		out = append(out, g)
+	}
+	return out
 }
 
 // K = -1: arguments that no tool of the harness can parse (the tool fails before its body runs)
@@ -347,6 +443,7 @@ func rawMarshal(_ context.Context, out interface{}) (string, error) {
 type rawBase struct {
 	name string
 	rc   *recorder
+	ot   int // the option type it reads
 }
 
 func (t *rawBase) Info(context.Context) (*schema.ToolInfo, error) {
@@ -367,7 +464,7 @@ func (t *rawInv) InvokableRun(ctx context.Context, args string, opts ...tool.Opt
 	if err != nil {
 		return "", err
 	}
-	return t.rc.invoke(ctx, t.name, k, tagOf(opts))
+	return t.rc.invoke(ctx, t.name, k, tagOf(t.ot, opts))
 }
 
 type rawStr struct{ rawBase }
@@ -377,7 +474,7 @@ func (t *rawStr) StreamableRun(ctx context.Context, args string, opts ...tool.Op
 	if err != nil {
 		return nil, err
 	}
-	return t.rc.stream(ctx, t.name, k, tagOf(opts))
+	return t.rc.stream(ctx, t.name, k, tagOf(t.ot, opts))
 }
 
 type rawBoth struct{ rawBase }
@@ -387,14 +484,14 @@ func (t *rawBoth) InvokableRun(ctx context.Context, args string, opts ...tool.Op
 	if err != nil {
 		return "", err
 	}
-	return t.rc.invoke(ctx, t.name, k, tagOf(opts))
+	return t.rc.invoke(ctx, t.name, k, tagOf(t.ot, opts))
 }
 func (t *rawBoth) StreamableRun(ctx context.Context, args string, opts ...tool.Option) (*schema.StreamReader[string], error) {
 	k, err := t.parse(args)
 	if err != nil {
 		return nil, err
 	}
-	return t.rc.stream(ctx, t.name, k, tagOf(opts))
+	return t.rc.stream(ctx, t.name, k, tagOf(t.ot, opts))
 }
 
 // a tool that is both, assembled from the two utils tools
@@ -425,19 +522,20 @@ func buildTool(rc *recorder, d ToolDef) (tool.BaseTool, error) {
 	if d.Kind == "none" {
 		return &rawBase{name: name, rc: rc}, nil
 	}
+	ot := d.optType()
 	invFn := func(ctx context.Context, in argT) (string, error) { return rc.invoke(ctx, name, in.K, "") }
 	strFn := func(ctx context.Context, in argT) (*schema.StreamReader[string], error) {
 		return rc.stream(ctx, name, in.K, "")
 	}
 	invOptFn := func(ctx context.Context, in argT, opts ...tool.Option) (string, error) {
-		return rc.invoke(ctx, name, in.K, tagOf(opts))
+		return rc.invoke(ctx, name, in.K, tagOf(ot, opts))
 	}
 	strOptFn := func(ctx context.Context, in argT, opts ...tool.Option) (*schema.StreamReader[string], error) {
-		return rc.stream(ctx, name, in.K, tagOf(opts))
+		return rc.stream(ctx, name, in.K, tagOf(ot, opts))
 	}
 	mk := utils.WithMarshalOutput(rawMarshal)
 	mkInv := func() (tool.InvokableTool, error) {
-		if d.Via == "inferopt" {
+		if d.Via == "inferopt" || d.Via == "inferopt2" {
 			return utils.InferOptionableTool[argT, string](name, "inferred optionable "+name, invOptFn, mk)
 		}
 		if d.Via == "infer" {
@@ -446,7 +544,7 @@ func buildTool(rc *recorder, d ToolDef) (tool.BaseTool, error) {
 		return utils.NewTool[argT, string](&schema.ToolInfo{Name: name, Desc: "new " + name}, invFn, mk), nil
 	}
 	mkStr := func() (tool.StreamableTool, error) {
-		if d.Via == "inferopt" {
+		if d.Via == "inferopt" || d.Via == "inferopt2" {
 			return utils.InferOptionableStreamTool[argT, string](name, "inferred optionable "+name, strOptFn, mk)
 		}
 		if d.Via == "infer" {
@@ -454,8 +552,8 @@ func buildTool(rc *recorder, d ToolDef) (tool.BaseTool, error) {
 		}
 		return utils.NewStreamTool[argT, string](&schema.ToolInfo{Name: name, Desc: "new " + name}, strFn, mk), nil
 	}
-	if d.Via == "raw" {
-		base := rawBase{name: name, rc: rc}
+	if d.Via == "raw" || d.Via == "raw2" {
+		base := rawBase{name: name, rc: rc, ot: ot}
 		switch d.Kind {
 		case "inv":
 			return &rawInv{base}, nil
@@ -858,10 +956,7 @@ func runOne(c *Case, mode, host string) (o RunObs, peer *RunObs, pc *Case) {
 			o.Class, o.ErrMsg = "setup", short(err.Error())
 			return
 		}
-		var gopts []compose.Option
-		if len(nopts) > 0 {
-			gopts = append(gopts, compose.WithToolsNodeOption(nopts...))
-		}
+		gopts := c.graphOptions(nopts)
 		inv = func() ([]*schema.Message, error) { return r.Invoke(ctx, msg, gopts...) }
 		str = func() (*schema.StreamReader[[]*schema.Message], error) { return r.Stream(ctx, msg, gopts...) }
 	}
@@ -1042,17 +1137,25 @@ func (c *Case) coq(runs []string) string {
 		items := make([]string, len(l))
 		for i, t := range l {
 			k := map[string]string{"inv": "(Some KInv)", "str": "(Some KStr)", "both": "(Some KBoth)", "none": "None"}[t.Kind]
-			items[i] = lib.CoqApp("T", S(t.Name), k, lib.CoqBool(t.sees()), lib.CoqBool(!t.InfoErr))
+			items[i] = lib.CoqApp("T", S(t.Name), k, lib.CoqN(uint64(t.optType())), lib.CoqBool(!t.InfoErr))
 		}
 		return lib.CoqList(items)
 	}
-	callTools := "None"
-	if c.CallTools != nil {
-		callTools = lib.CoqSome(tdefs(*c.CallTools))
-	}
-	var tags []string
-	for _, l := range c.ToolOpts {
-		tags = append(tags, l...)
+	var nopts []string
+	for _, o := range c.optSeq() {
+		switch {
+		case o.List != nil:
+			nopts = append(nopts, lib.CoqApp("NList", lib.CoqSome(tdefs(*o.List))))
+		case o.NoArg:
+			nopts = append(nopts, "(NList None)")
+		default:
+			tags := make([]string, len(o.Tags))
+			for i, t := range o.Tags {
+				ty, payload := splitTag(t)
+				tags[i] = lib.CoqApp("TG", lib.CoqN(uint64(ty)), S(payload))
+			}
+			nopts = append(nopts, lib.CoqApp("NOpts", lib.CoqList(tags)))
+		}
 	}
 	tbl := make([]string, len(c.Behavs))
 	for i, b := range c.Behavs {
@@ -1068,7 +1171,7 @@ func (c *Case) coq(runs []string) string {
 	for i, cl := range c.Calls {
 		calls[i] = lib.CoqApp("mkCall", S(cl.ID), S(cl.Name), S(argsOf(cl.K)))
 	}
-	return lib.CoqApp("mkCase", tdefs(c.Tools), callTools, sList(tags), lib.CoqList(tbl), h, lib.CoqBool(c.RoleOK),
+	return lib.CoqApp("mkCase", tdefs(c.Tools), lib.CoqList(nopts), lib.CoqList(tbl), h, lib.CoqBool(c.RoleOK),
 		lib.CoqList(calls), lib.CoqList(runs))
 }
 
@@ -1086,11 +1189,11 @@ type spec struct {
 	mid      []int // error classes delivered as error items of natively streamed executions
 }
 
-// kind and option awareness of the tool a name resolves to in the tool list in force ("" = unknown)
-func (c *Case) lookup(name string) (kind string, sees bool) {
+// kind and option type of the tool a name resolves to in the tool list in force ("" = unknown)
+func (c *Case) lookup(name string) (kind string, ot int) {
 	for _, t := range c.effTools() {
 		if t.Name == name {
-			kind, sees = t.Kind, t.sees() // the last one wins, as in a Go map
+			kind, ot = t.Kind, t.optType() // the last one wins, as in a Go map
 		}
 	}
 	return
@@ -1116,7 +1219,7 @@ func (c *Case) spec(streamed bool) spec {
 		}
 	}
 	for i, cl := range c.Calls {
-		kind, sees := c.lookup(cl.Name)
+		kind, ot := c.lookup(cl.Name)
 		if kind == "" {
 			if c.Handler == "err" {
 				s.errs = append(s.errs, handlerErrCode)
@@ -1126,10 +1229,7 @@ func (c *Case) spec(streamed bool) spec {
 			s.tags = append(s.tags, "")
 			continue
 		}
-		tag := ""
-		if sees {
-			tag = c.tag()
-		}
+		tag := c.tag(ot) // the options of the type the tool reads, in the order given
 		if cl.K < 0 { // arguments the tool cannot parse: it fails when called, its body never runs
 			s.errs = append(s.errs, 0)
 			callFails(i, 0)
@@ -1308,13 +1408,16 @@ func js(x any) string { b, _ := json.Marshal(x); return string(b) }
 // ---------------------------------------------------------------- generator
 
 var toolNames = []string{"ta", "tb", "tc", "td"}
-var vias = []string{"infer", "new", "raw", "inferopt"}
-var tagPool = []string{"<o1>", "<o2>", "<x>", ""}
+var vias = []string{"infer", "new", "raw", "inferopt", "raw", "inferopt", "raw2", "inferopt2"}
+var tagPool = []string{"<o1>", "<o2>", "<x>", "", "~<a1>", "~<a2>", "~"}
 
 // another way of building a tool with the same attitude towards its options
 func sameSeesVia(r *lib.Rng, via string) string {
-	if via == "raw" || via == "inferopt" {
+	switch via {
+	case "raw", "inferopt":
 		return r.Pick([]string{"raw", "inferopt"})
+	case "raw2", "inferopt2":
+		return r.Pick([]string{"raw2", "inferopt2"})
 	}
 	return r.Pick([]string{"infer", "new"})
 }
@@ -1355,7 +1458,7 @@ func genCase(r *lib.Rng, tier string) *Case {
 	for _, t := range c.Tools {
 		names = append(names, t.Name)
 	}
-	if r.Chance(1, 6) { // WithToolList: the call brings its own tool set
+	genList := func() *[]ToolDef {
 		l := []ToolDef{}
 		if !r.Chance(1, 6) {
 			p2 := r.Perm(len(toolNames))
@@ -1372,16 +1475,38 @@ func genCase(r *lib.Rng, tier string) *Case {
 				l[i].InfoErr = true
 			}
 		}
-		c.CallTools = &l
+		return &l
+	}
+	var seq []NodeOpt
+	if r.Chance(1, 5) { // WithToolList: the call brings its own tool set
+		seq = append(seq, NodeOpt{List: genList()})
+		if r.Chance(1, 3) { // ... and says so more than once: the last one decides
+			if r.Chance(1, 2) {
+				seq = append(seq, NodeOpt{NoArg: true}) // WithToolList(): back to the configured tools
+			} else {
+				seq = append(seq, NodeOpt{List: genList()})
+			}
+		}
+	} else if r.Chance(1, 30) {
+		seq = append(seq, NodeOpt{NoArg: true})
 	}
 	if r.Chance(1, 3) { // WithToolOption
-		for i, m := 0, r.Range(1, 2); i < m; i++ {
+		for i, m := 0, r.Range(1, 3); i < m; i++ {
 			l := []string{}
 			for j, m2 := 0, r.Range(0, 2); j < m2; j++ {
 				l = append(l, r.Pick(tagPool))
 			}
-			c.ToolOpts = append(c.ToolOpts, l)
+			// anywhere among the options given so far (their order among themselves is kept)
+			at := r.Intn(len(seq) + 1)
+			if r.Chance(1, 2) {
+				at = len(seq)
+			}
+			seq = append(seq[:at], append([]NodeOpt{{Tags: l}}, seq[at:]...)...)
 		}
+	}
+	if len(seq) > 0 {
+		c.OptSeq = seq
+		c.GraphOpts = r.Pick([]string{"", "", "split", "designated", "mixed"})
 	}
 	faults := r.Chance(1, 2)
 	zero := r.Chance(1, 25)
@@ -1667,7 +1792,28 @@ func (engine) runCase(c *Case) lib.Result {
 	if zero > 0 {
 		res.Tags = append(res.Tags, "domain:zero-chunk-stream(outside)")
 	}
-	res.Tags = append(res.Tags, fmt.Sprintf("callopt:toollist:%v", c.CallTools != nil), fmt.Sprintf("callopt:tooloptions:%d", len(c.ToolOpts)))
+	nList, nOpt := 0, 0
+	for _, o := range c.optSeq() {
+		if o.isList() {
+			nList++
+		} else {
+			nOpt++
+		}
+	}
+	listTag := "none"
+	switch l := c.callList(); {
+	case l != nil && len(*l) == 0:
+		listTag = "empty"
+	case l != nil:
+		listTag = "replaces"
+	case nList > 0:
+		listTag = "withdrawn(nil)"
+	}
+	res.Tags = append(res.Tags, fmt.Sprintf("callopt:toollist-options:%d", nList), "callopt:toollist:"+listTag,
+		fmt.Sprintf("callopt:tooloptions:%d", nOpt), "callopt:graph-passing:"+map[string]string{"": "one"}[c.GraphOpts]+c.GraphOpts)
+	if c.tag(1) != "" && c.tag(2) != "" {
+		res.Tags = append(res.Tags, "callopt:two-option-types")
+	}
 	if !c.RoleOK {
 		res.Tags = append(res.Tags, "malformed:role")
 	}
@@ -1677,7 +1823,7 @@ func (engine) runCase(c *Case) lib.Result {
 	if anyBad(c.Tools) {
 		res.Tags = append(res.Tags, "malformed:configured-tool")
 	}
-	if c.CallTools != nil && anyBad(*c.CallTools) {
+	if l := c.callList(); l != nil && anyBad(*l) {
 		res.Tags = append(res.Tags, "malformed:call-list-tool")
 	}
 	ooo := false
@@ -1730,6 +1876,24 @@ func (engine) Shrink(ci any, stillFails func(any) bool) any {
 				cur, changed = t, true
 				break
 			}
+		}
+	}
+	for changed := true; changed; {
+		changed = false
+		for i := range cur.OptSeq {
+			t := cur
+			t.OptSeq = append(append([]NodeOpt{}, cur.OptSeq[:i]...), cur.OptSeq[i+1:]...)
+			if stillFails(&t) {
+				cur, changed = t, true
+				break
+			}
+		}
+	}
+	if cur.GraphOpts != "" {
+		t := cur
+		t.GraphOpts = ""
+		if stillFails(&t) {
+			cur = t
 		}
 	}
 	if cur.ToolOpts != nil {
